@@ -201,11 +201,14 @@ claim("C14", "proof",
       "read-modify-write is one step; threads only copy / destroy references they hold): no operation ever touches a freed "
       "node, the counter always equals the number of references held (at every prefix of every interleaving), the node is "
       "freed at most once, exactly when everything was released, by the last decrement of the interleaving; the non-atomic "
-      "variant (load, then store) is refuted by a concrete interleaving with a use-after-free.  The absence of OTHER shared "
+      "variant (load, then store) and the 'decrement, then read again' destructor are each refuted by a concrete interleaving "
+      "(use-after-free / double free).  The absence of OTHER shared "
       "mutable state (static singletons, lazily filled tables, per-call canonical maps) and 'every thread observes the "
       "sequential result' are decided by the oracle: harness/threads.cpp under ThreadSanitizer, 2..16 threads copying, moving, "
       "destroying, printing, optimising, flattening, remapping, serialising shared DAGs and building evaluators from them, "
-      "half of the scenarios cold (nothing initialised before the threads start); every TSan report is a violation.",
+      "half of the scenarios cold (nothing initialised before the threads start), plus last-reference scenarios (threads released "
+      "from a spin barrier together drop the last references of a shared sub-DAG; the live-node counter must return to its "
+      "baseline); every TSan report is a violation.",
       "Trusted: Coq kernel (no axioms); the C++ memory model reading 'atomic RMW = one indivisible step'; ThreadSanitizer on "
       "OS-sampled schedules; harness/threads.cpp.",
       "Coq proof (invariant over all shuffles) + ThreadSanitizer runs",
